@@ -1,0 +1,28 @@
+// Copyright IBM Corp. 2020, 2025
+// SPDX-License-Identifier: MPL-2.0
+
+//go:build verif
+
+package wal
+
+import "sync/atomic"
+
+// VerifYield, when set, is called at named scheduling points so that a
+// verification harness can force specific interleavings. It is only compiled
+// in with the `verif` build tag.
+var verifYieldFn atomic.Value // func(point string)
+
+// SetVerifYield installs (or with nil removes) the scheduling hook.
+func SetVerifYield(f func(point string)) {
+	if f == nil {
+		verifYieldFn.Store((func(string))(nil))
+		return
+	}
+	verifYieldFn.Store(f)
+}
+
+func verifYield(point string) {
+	if f, ok := verifYieldFn.Load().(func(string)); ok && f != nil {
+		f(point)
+	}
+}
